@@ -53,6 +53,7 @@ let run_main path =
   close_in ic
 
 (* ---------- generator ---------- *)
+let tmo_mode = ref false
 let counter = ref 0
 let fresh () = incr counter; nat_of_int !counter
 let vnum n = VNum (z_of_int n)
@@ -98,7 +99,7 @@ let rec gen_act depth : act =
   let ins = (if rnd 6 = 0 then rvars [3;4;7] 50 else []) in
   let params = (if isset then Some (rvars [0;1;2;3;4;5;6] 45) else None) in
   let catches = (if depth >= 0 && rnd 6 = 0 then gen_catches (depth-1) else []) in
-  let timeouts = (if depth >= 0 && rnd 8 = 0 then gen_timeouts (depth-1) else []) in
+  let timeouts = (if depth >= 0 && (if !tmo_mode then rnd 2 = 0 else rnd 8 = 0) then gen_timeouts (depth-1) else []) in
   Act (id, rcond 15, spec, ins, outs, params, gen_setup (), catches, timeouts)
 and gen_timeouts depth =
   let used = ref [] in
@@ -131,7 +132,7 @@ and gen_step depth simple : step =
   end else
     Step (id, sif, None, ins, outs, gen_setup (), [], List.init (rnd 4) (fun _ -> gen_act depth),
           (if depth >= 0 && rnd 3 = 0 then gen_catches (depth-1) else []),
-          (if depth >= 0 && rnd 5 = 0 then gen_timeouts (depth-1) else []))
+          (if depth >= 0 && (if !tmo_mode then rnd 2 = 0 else rnd 5 = 0) then gen_timeouts (depth-1) else []))
 let gen_workflow () : workflow =
   counter := 0;
   let setup = gen_setup () in
@@ -178,7 +179,7 @@ let gen_main n seed0 maxops out =
          let nonacts = idx (fun i -> kindof i <> KAct) in
          let r = rnd 100 in
          let pick l = List.nth l (rnd (List.length l)) in
-         if has_tmo && rnd 5 = 0 then begin
+         if has_tmo && (if !tmo_mode then rnd 2 = 0 else rnd 5 = 0) then begin
            let adv = (match rnd 4 with 0 -> 400 | 1 -> 1000 | 2 -> 1100 | _ -> 2500) in
            ops := Json.Obj [("tick", Json.Int adv)] :: !ops;
            incr nops; bump "tick";
@@ -318,5 +319,5 @@ let () =
   match Array.to_list Sys.argv with
   | _ :: "run" :: path :: _ -> run_main path
   | _ :: "oracle" :: cases :: trace :: _ -> oracle_main cases trace
-  | _ :: "gen" :: n :: s :: m :: out :: _ -> gen_main (int_of_string n) (int_of_string s) (int_of_string m) out
+  | _ :: "gen" :: n :: s :: m :: out :: rest -> tmo_mode := List.mem "tmo" rest; gen_main (int_of_string n) (int_of_string s) (int_of_string m) out
   | _ -> prerr_endline "usage: driver_engine run <cases.jsonl> | gen <n> <seed> <maxops> <out.jsonl>"; exit 2
